@@ -186,14 +186,14 @@ void h_bt_search(void)
 	int ix = -1, gpresent = COUNT_KEY(root, BT_H, gk) >= 1, kpresent = COUNT_KEY(root, BT_H, k) >= 1;
 	BTree b;
 	b = btreeSearchEQ(root, k, &ix);
-#ifndef CANARY_bt_search
 	CHECK("btreeSearchEQ: finds k exactly when present", (b != 0) == (kpresent != 0));
-#else	/* canary: finds only keys in the root */
-	CHECK("btreeSearchEQ canary", (b != 0) == (kpresent != 0) && (b == 0 || b == root));
-#endif
 	CHECK("btreeSearchEQ: and points at it", b == 0 || (0 <= ix && ix < b->nKeys && btreeKey(b, ix) == k));
 	b = btreeSearchGE(root, k, &ix);
+#ifndef CANARY_bt_search
 	CHECK("btreeSearchGE: found key is >= k", b == 0 || (0 <= ix && ix < b->nKeys && btreeKey(b, ix) >= k));
+#else	/* canary: strictly greater */
+	CHECK("btreeSearchGE canary", b == 0 || (0 <= ix && ix < b->nKeys && btreeKey(b, ix) > k));
+#endif
 	CHECK("btreeSearchGE: no key of the tree lies in [k, found) (ghost key)", b == 0 || !gpresent || gk < k || btreeKey(b, ix) <= gk);
 	CHECK("btreeSearchGE: nothing found only if no key is >= k (ghost key)", b != 0 || !gpresent || gk < k);
 	if (n0 > 0) {
